@@ -79,23 +79,23 @@ pub fn execute(sc: &Scenario) -> Option<RunReport> {
 /// default number of runs per (property, tier)
 pub fn default_runs(prop: &str, thorough: bool) -> u64 {
     match (prop, thorough) {
-        ("C02", false) => 20_000,
+        ("C02", false) => 150_000,
         ("C02", true) => 2_000_000,
-        ("C04", false) => 12_000,
+        ("C04", false) => 100_000,
         ("C04", true) => 1_000_000,
-        ("C06", false) => 10_000,
+        ("C06", false) => 60_000,
         ("C06", true) => 800_000,
-        ("C08", false) => 60_000,
+        ("C08", false) => 150_000,
         ("C08", true) => 3_000_000,
-        ("C09", false) => 600,
+        ("C09", false) => 3_000,
         ("C09", true) => 40_000,
-        ("C11", false) => 6_000,
+        ("C11", false) => 40_000,
         ("C11", true) => 400_000,
-        ("C12", false) => 4_000,
+        ("C12", false) => 25_000,
         ("C12", true) => 300_000,
-        ("C17", false) => 3_000,
+        ("C17", false) => 15_000,
         ("C17", true) => 300_000,
-        ("C10", false) => 6_000,
+        ("C10", false) => 50_000,
         ("C10", true) => 400_000,
         _ => 1000,
     }
